@@ -194,6 +194,12 @@ struct Options {
     std::map<std::string, std::string> extra;
 };
 
+// Calls that omit an optional argument must behave as the call that passes the documented default: a harness wraps the
+// explicit call in DF(explicit, defaulted) where the explicit argument IS the default; a disagreement replaces the
+// observation of the case by "!default-argument-mismatch" (which no model produces).
+inline bool &default_mismatch() { static bool f = false; return f; }
+template <class T, class U> const T &same_as_default(const T &with, const U &dflt) { if (!(with == dflt)) default_mismatch() = true; return with; }
+
 class Emitter {
 public:
     typedef std::function<std::string(const Args &)> ExecFn;
@@ -209,8 +215,10 @@ public:
         if (it != skip_.end()) { out(input, it->second); return; }
         sh_->current = index_;
         std::string obs;
+        default_mismatch() = false;
         try { obs = exec_(parse_line(input)); }
         catch (const std::bad_alloc &) { obs = "throw bad_alloc(harness)"; }
+        if (default_mismatch() && obs.compare(0, 1, "\x01") != 0) obs = "!default-argument-mismatch";
         out(input, obs);
     }
     void finish() { flush(); }
